@@ -283,9 +283,15 @@ async fn check_recovery(r: &mut Runner, pre: &[Row], post: &[Row], n: u64, m: u6
     };
     let post_cols = r_cols_after(r, op);
     let names_of = |c: &[ColDef]| c.iter().map(|x| x.name.clone()).collect::<Vec<_>>();
-    let cols: Vec<ColDef> = if names_of(&post_cols) == cur.0 {
+    // names and types (a cast keeps the names): compare with the table's actual arrow schema
+    let actual: Vec<(String, arrow_schema::DataType)> = {
+        let sch: arrow_schema::Schema = ds.schema().into();
+        sch.fields().iter().map(|f| (f.name().clone(), f.data_type().clone())).collect()
+    };
+    let sig_of = |c: &[ColDef]| c.iter().map(|x| (x.name.clone(), x.ty.arrow())).collect::<Vec<_>>();
+    let cols: Vec<ColDef> = if names_of(&post_cols) == cur.0 && sig_of(&post_cols) == actual {
         post_cols
-    } else if names_of(&r.st.cols) == cur.0 {
+    } else if names_of(&r.st.cols) == cur.0 && sig_of(&r.st.cols) == actual {
         r.st.cols.clone()
     } else {
         r.res.violate("C01", "atomic", &format!("schema-neither-pre-nor-post:{}{}", op.kind(), tag), step, format!("after {}: columns {:?}", what, cur.0));
